@@ -113,6 +113,23 @@ def kernel_shape(crate):
             if not is_call(rng[3][1], "max"):
                 probs.append("word loop end %s is not max(words(self), words(other)): a longer operand's high words would be ignored"
                              % show(rng[3][1]))
+            elif info["cmp"] is not None:
+                # each accessor's word count must be one of the max() arguments, in the accessor's own word type
+                for side in info["cmp"]:
+                    acc = mir.strip_casts(side)
+                    if is_call(acc, "unwrap_or"):
+                        acc = acc[3][0]
+                    okb = False
+                    for arg in rng[3][1][3]:
+                        if is_call(acc, "get_int") and is_call(arg, "int_len") and arg[3] == (acc[3][0],) \
+                                and (len(arg) < 5 or len(acc) < 5 or arg[4][-1:] == acc[4][-1:]):
+                            okb = True
+                        if is_call(acc, "get") and is_call(arg, "len") and (arg[3] == (acc[3][0],) or (
+                                acc[3][0][0] == "field" and arg[3] == (acc[3][0][1],))):
+                            okb = True   # len(x.data) words, or len(x) bits >= words (over-approximation)
+                    if not okb:
+                        probs.append("loop bound %s does not cover the word count of accessor `%s` (in its own word type): "
+                                     "high words of that operand would be ignored" % (show(rng[3][1]), show(acc)[:60]))
         if kind == "ord" and not info["rev"]:
             probs.append("ordering kernel iterates least-significant word first (missing .rev())")
         if kind == "eq" and info["rev"]:
